@@ -27,7 +27,8 @@ TABLE = {
             ('OpyVerif.Generated.Constants', 'Opy.Gen', r'floatMax_is_sys_max'),
             ('OpyVerif.Generated.Skeletons', 'Opy.Gen', r'skel_\w+_good'),
             ('OpyVerif.Proofs.TaskRun', 'Opy', r'^(sweepPop_best|sweepPop_best_from|bestInv_execEv|task_best|task_best_evaluated|rule_best|sweepAgent_fit_le)$'),
-            ('OpyVerif.Proofs.TaskRunCode', 'Opy', r'code_task_best$|isRule'),
+            ('OpyVerif.Proofs.TaskRunCode', 'Opy', r'code_task_best$|isRule|code_task_best_is_min'),
+            ('OpyVerif.Proofs.TaskRun', 'Opy', r'^(evald_execEv|task_best_is_min)$'),
             ('OpyVerif.Proofs.TaskTrial', 'Opy', r'^(runOps_one|accept_bound|trialStep_bound|greedyUpdate_bound|trialBound_execEv|ginv2_exec|task_greedy_best_is_min)$'),
             ('OpyVerif.Proofs.TaskTrialCode', 'Opy', r'code_task_greedy_best_is_min|code_sites_one_eval|code_greedySites_ok|code_trialSites_ok')],
     'C03': [('OpyVerif.Proofs.C03', 'Opy', None),
@@ -125,6 +126,9 @@ TABLE = {
             ('OpyVerif.Proofs.Lemmas.MachineInv', 'Opy', r'inv_(apply|run|init)'),
             ('OpyVerif.Proofs.TaskTrial', 'Opy', r'^(leAll_refl|leAll_trans|leAll_set|trialStep_pop|greedyUpdate_evals_inBox|sweepPop_pop|ginv_execEv|ginv_exec|task_greedy)$'),
             ('OpyVerif.Proofs.TaskTrialCode', 'Opy', r'code_task_greedy|code_greedySites_ok|code_trialSites_ok|code_searchClip_fixes'),
+            ('OpyVerif.Proofs.TaskSwarm', 'Opy', r'^(memory_fits|memory_mem|leAll_map|swarm_sweep_fit|swInv_execEv|swInv_exec|task_swarm)$'),
+            ('OpyVerif.Proofs.TaskSwarmCode', 'Opy', r'code_task_swarm'),
+            ('OpyVerif.Proofs.TaskRunCode', 'Opy', r'code_psoSweep_isRule|code_genericSweep_isRule'),
             ('OpyVerif.Generated.Skeletons', 'Opy.Gen', r'skel_\w+_good|evalSites_ok')],
 }
 
